@@ -811,3 +811,8 @@ M('c04-debug-option-swapped', ['C04'], 'core.py',
   "    glom_debug = kwargs.pop('glom_debug', GLOM_DEBUG)",
   "    glom_debug = kwargs.pop(GLOM_DEBUG, 'glom_debug')",
   "debug mode is always on: errors are never translated or traced")
+
+M('c14-revert-s-root-recursion', ['C14'], 'core.py',
+  "            todo.__ops__ = (T if root is S else root,) + t_path[i+2:]",
+  "            todo.__ops__ = (root,) + t_path[i+2:]",
+  "revert of the repair: S-rooted expressions restart from the scope after a wildcard")
